@@ -343,7 +343,10 @@ func Check[C any](t *testing.T, s Spec[C]) {
 				rec.mu.Lock()
 				rec.known[v.Fingerprint]++
 				rec.mu.Unlock()
-				o.Skip = true
+				// the case still counts for the class histogram (generator
+				// health); it is excluded from the non-trivial count
+				o.NonTrivial = false
+				o.Labels = append(o.Labels, "known-finding:"+v.Fingerprint)
 				if !failing {
 					rec.record(hashOf(raw), o, "")
 				}
